@@ -1284,6 +1284,33 @@ MOTIFS_NAME = [
 ]
 
 
+# The name of a space read DIRECTLY from elsewhere (template 18: `X.fullname`, `X` an object-valued reference to the
+# space): `B.k` reads the name of `C.X`, `B.f` the name of `C`, `D.f` is a dependent of `B.k`.  The renamed spaces hold
+# a cells each (so that `rename_space_edits` renames them) that nothing elsewhere calls.
+MOTIFS_NAME_REF = [
+    [["new_space", "-", "C", []], ["new_space", "C", "X", []],
+     ["new_cells", "C.X", "g", F(0, 1)], ["new_cells", "C", "h", F(0, 2)],
+     ["new_space", "-", "B", []], ["set_ref", "B", "X", ["obj", "C.X"], "absolute"],
+     ["set_ref", "B", "Y", ["obj", "C"], "absolute"],
+     ["new_cells", "B", "k", F(18, 1, "g", "r", "X")], ["new_cells", "B", "f", F(18, 2, "h", "r", "Y")],
+     ["new_space", "-", "D", []], ["set_ref", "D", "t", ["obj", "B.k"], "absolute"],
+     ["new_cells", "D", "f", F(9, 1, "f", "t")]],
+]
+
+
+def reads_space_name_through_reference(live):
+    """some formula of the live model reads `<name>.fullname` for a name other than `_space` (template 18)"""
+    import re
+    for _p, s in W.all_spaces(live.m):
+        for c in s.cells.values():
+            try:
+                if re.search(r"\b(?!_space\b)[A-Za-z]\w*\.fullname", c.formula.source or ""):
+                    return True
+            except Exception:   # noqa
+                pass
+    return False
+
+
 def rename_space_edits(live, to="Z"):
     """`space.rename(<a free name>)` for every space that holds a cells or has a descendant that does (a static
     space: a parametrised one or one that has bases / sub spaces is refused or not, as the library decides)"""
